@@ -21,6 +21,7 @@ static int names=4;
 #include <sys/mman.h>
 #include <sys/wait.h>
 #include <signal.h>
+#include <sys/prctl.h>
 // counters live in shared memory so that forked processes (mode "proc") share them
 struct shared_counters { std::atomic<long> vcounter, progress; std::atomic<unsigned long long> seq; };
 static shared_counters *sh = new(mmap(0,sizeof(shared_counters),PROT_READ|PROT_WRITE,MAP_SHARED|MAP_ANONYMOUS,-1,0)) shared_counters();
@@ -150,6 +151,7 @@ int main(int argc,char **argv)
 			for(int i=0;i<threads;i++) {
 				pid_t pid=fork();
 				if(pid==0) {
+					prctl(PR_SET_PDEATHSIG,SIGKILL);   // never outlive the driver (a worker can block for ever on a dead peer's lock)
 					bv::st().tid_base=i+1;
 					worker w; w.id=i; w.nops=nops; w.seed=seed*7919+r*131+i*17+limit;
 					w();
